@@ -26,20 +26,53 @@ def parseInstr (tok : String) : Option Instr :=
   | 't' => rest.toNat?.map .thread
   | 'T' => rest.toNat?.map .waitthread
   | 'p' => if rest.isEmpty then some .pause else none
-  | 'e' => if rest.isEmpty then some (.end_ none) else rest.toNat?.map (fun v => .end_ (some v))
+  | 'P' => rest.toNat?.map .pparam
+  | 'e' =>
+    if rest.isEmpty then some (.end_ .none)
+    else if rest.front == 'P' then (rest.drop 1).toString.toNat?.map (fun i => .end_ (.param i))
+    else rest.toNat?.map (fun v => .end_ (.lit v))
   | _ => none
 
+def hexVal (c : Char) : Option Nat :=
+  if '0' ≤ c ∧ c ≤ '9' then some (c.toNat - '0'.toNat)
+  else if 'a' ≤ c ∧ c ≤ 'f' then some (c.toNat - 'a'.toNat + 10) else none
+
+def unhex : List Char → Option (List Char)
+  | [] => some []
+  | a :: b :: rest => do
+    let x ← hexVal a; let y ← hexVal b
+    let r ← unhex rest
+    some (Char.ofNat (16 * x + y) :: r)
+  | _ => none
+
+/-- host argument tokens: `i<int>`, `s<hex>`, `n` -/
+def parseArg (t : String) : Option V :=
+  let rest := (t.drop 1).toString
+  match t.front with
+  | 'i' => rest.toNat?.map .int
+  | 's' => (unhex rest.toList).map (fun cs => .str (String.ofList (cs.map (fun c => if c == ' ' then '_' else c))))
+  | 'n' => if rest.isEmpty then some .nil else none
+  | _ => none
+
+/-- a label group may start with `(k)`: the number of declared parameters -/
+def splitParams (g : List String) : Nat × List String :=
+  match g with
+  | h :: rest =>
+    if h.front == '(' then (((h.drop 1).toString.dropEnd 1).toString.toNat?.getD 0, rest) else (0, g)
+  | [] => (0, [])
+
 /-- labels separated by `/` -/
-def parseProg (ts : List String) : Option (List (List Instr)) :=
+def parseProg (ts : List String) : Option (List (Nat × List Instr)) :=
   let groups := ts.foldl (fun (acc : List (List String)) t =>
     if t == "/" then acc ++ [[]] else
     match acc.reverse with
     | [] => [[t]]
     | last :: initRev => initRev.reverse ++ [last ++ [t]]) [[]]
-  groups.mapM (fun g => g.mapM parseInstr)
+  groups.mapM (fun g => let (k, r) := splitParams g; (r.mapM parseInstr).map (fun is => (k, is)))
 
 def showRet : Ret → String
-  | .open_ => "open" | .none => "none" | .pending => "pending" | .nil => "nil" | .int v => s!"i{v}"
+  | .open_ => "open" | .none => "none" | .pending => "pending" | .nil => "nil"
+  | .val (.int v) => s!"i{v}" | .val (.str x) => s!"s{x}" | .val .nil => "nil"
 
 def takeOut (s : State) : State × String :=
   ({ s with out := [] }, "[" ++ "|".intercalate s.out.reverse ++ "]")
@@ -63,17 +96,18 @@ def step (st : St) (t : List String) : St × String :=
   | ["reset"] => reply {} "ok"
   | "script" :: _name :: _hex :: "##" :: abs =>
     match parseProg abs with
-    | some p => reply { st with s := { st.s with prog := p } } "ok"
+    | some p => reply { st with s := { st.s with prog := p.map (·.2), progParams := p.map (·.1) } } "ok"
     | none => (st, "bad-op")
-  | "call" :: _name :: label :: _args =>
-    match labelIdx label with
-    | none => (st, "bad-op")
-    | some l =>
+  | "call" :: _name :: label :: args =>
+    match labelIdx label, args.mapM parseArg with
+    | none, _ => (st, "bad-op")
+    | _, none => (st, "bad-op")
+    | some l, some vs =>
       let c := st.s.nextCall
-      let (s', status) := hostCall st.s l
+      let (s', status) := hostCall st.s l vs
       if status == "ok" then
         reply { s := s', lastCall := some c } status s!" ret={showRet (s'.getRet c)}"
-      else reply { st with s := s' } status
+      else reply { s := s', lastCall := none } status      -- the host's Event of the failed call holds no result
   | ["thread-result"] =>
     match st.lastCall with
     | some c => reply st "ok" s!" ret={showRet (st.s.getRet c)}"
